@@ -83,6 +83,12 @@ package mqtt
 //@   ensures[C11] waitset: evCount("select") == 1 ==> evArg[chan struct{}]("select", 0, 0) == c.connClosed &&
 //@        evArg[<-chan struct{}]("select", 0, 1) == evRet[<-chan struct{}]("context.Context.Done", 0, 0) && evArg[context.Context]("context.Context.Done", 0, 0) == ctx
 //@   ensures[C11] no_bare_block: evCount("recv") == 0 && evCount("send") == 0
+//@   ensures[C11,C19] cancel_cause: evCount("select") == 1 && evRet[int]("select", 0, 0) == 1 && isRetryErr(result) ==>
+//@        evCount("context.Context.Err") == 1 && evArg[context.Context]("context.Context.Err", 0, 0) == ctx &&
+//@        asError(asRetryErr(result).errorInterface).Err == evRet[error]("context.Context.Err", 0, 0)
+//@   ensures[C11,C19] closed_cause: evCount("select") == 1 && evRet[int]("select", 0, 0) == 0 ==>
+//@        isRetryErr(result) && asError(asRetryErr(result).errorInterface).Err == ErrClosedTransport
+//@   ensures[C19] not_connected: sig0 == nil ==> result == ErrNotConnected && evCount("(*BaseClient).write") == 0
 
 //@ func publishImpl$1
 //@   mode int
@@ -112,3 +118,8 @@ package mqtt
 //@        evIndex("mapstore:map<uint16,chan *pktPubComp>", 0) < evIndex("(*BaseClient).write", 0) && evIndex("(*BaseClient).write", 0) < evIndex("select", 0)
 //@   ensures[C11] waitset: evCount("select") == 1 ==> evArg[chan struct{}]("select", 0, 0) == cli.connClosed &&
 //@        evArg[<-chan struct{}]("select", 0, 1) == evRet[<-chan struct{}]("context.Context.Done", 0, 0) && evArg[context.Context]("context.Context.Done", 0, 0) == ctx
+//@   ensures[C11,C19] cancel_cause: evCount("select") == 1 && evRet[int]("select", 0, 0) == 1 && isRetryErr(result) ==>
+//@        evCount("context.Context.Err") == 1 && evArg[context.Context]("context.Context.Err", 0, 0) == ctx &&
+//@        asError(asRetryErr(result).errorInterface).Err == evRet[error]("context.Context.Err", 0, 0)
+//@   ensures[C11,C19] closed_cause: evCount("select") == 1 && evRet[int]("select", 0, 0) == 0 ==>
+//@        isRetryErr(result) && asError(asRetryErr(result).errorInterface).Err == ErrClosedTransport
